@@ -78,6 +78,10 @@ func buildSkeletons() []skeleton {
 		skeleton{Name: "table-in-cte", Tmpl: "{C}WITH c AS (TABLE {T}) SELECT {I}* FROM c{POST}", Base: "table-stmt"},
 		skeleton{Name: "describe", Base: "table-stmt", Tmpl: "{C}DESCRIBE {T}{POST}", Core: true},
 		skeleton{Name: "show", Tmpl: "{C}SHOW {T}{POST}", Base: "describe"},
+		skeleton{Name: "desc", Tmpl: "{C}DESC {T}{POST}", Base: "describe"},
+		skeleton{Name: "describe-in-subquery", Tmpl: "{C}SELECT {I}* FROM (DESCRIBE {T}) s{POST}", Base: "describe"},
+		skeleton{Name: "pivot-wider", Tmpl: "{C}PIVOT_WIDER {T} ON host USING sum(value){POST}", Base: "pivot"},
+		skeleton{Name: "pivot-in-subquery", Tmpl: "{C}SELECT {I}* FROM {P} a, (PIVOT {T} ON host USING sum(value)) b{POST}", Base: "pivot"},
 		skeleton{Name: "summarize", Base: "table-stmt", Tmpl: "{C}SUMMARIZE {T}{POST}"},
 		skeleton{Name: "pivot", Base: "table-stmt", Tmpl: "{C}PIVOT {T} ON host USING sum(value){POST}", Core: true},
 		skeleton{Name: "unpivot", Base: "pivot", Tmpl: "{C}UNPIVOT {T} ON value INTO NAME n VALUE v{POST}"},
@@ -272,6 +276,8 @@ func buildFillers(catalog []string) []filler {
 	f = append(f, filler{Key: "path:dq-glued", Family: "path:glued", Text: `"` + p0 + `"`, Glue: true, BaseK: "path:dq:glob", Core: true})
 	f = append(f, filler{Key: "path:dollar-glued", Family: "path:glued", Text: "$$" + p0 + "$$", Glue: true, BaseK: "path:dollar:glob"})
 	add("path:sq-only", "path:only", "ONLY '"+p0+"'", "path:sq:glob", true)
+	add("path:sq-only-parenthesised", "path:only", "ONLY ('"+p0+"')", "path:sq-only", true)
+	add("path:dq-only-parenthesised", "path:only", "ONLY (\""+p0+"\")", "path:sq-only", false)
 	add("path:sq-lateral", "path:lateral", "LATERAL '"+p0+"'", "path:sq:glob", false)
 	add("path:sq-parenthesised", "path:parenthesised", "('"+p0+"')", "path:sq:glob", false)
 
